@@ -60,6 +60,12 @@ ASSUMPTIONS = [
 # generation
 # ---------------------------------------------------------------------------------------------
 def gen_counts(rng):
+    if rng.random() < 0.04:  # long tail of a real repertoire: hundreds of categories of size 1-2, or one giant plus singletons
+        L = rng.randint(20, 200)
+        c = [rng.choice([1, 1, 1, 2, 0]) for _ in range(L)]
+        if rng.random() < 0.5:
+            c[rng.randrange(L)] = rng.choice([50, 500])
+        return c
     if rng.random() < 0.02:  # deep repertoires: conservation laws on large totals
         L = rng.randint(1, 5)
         return [rng.choice([0, 3, 2000, 10 ** 5, 4 * 10 ** 5, 10 ** 6]) for _ in range(L)]
@@ -102,19 +108,20 @@ def gen_op(rng, sw, last_sample):
     if kind == "subsample":
         counts = gen_counts(rng)
         n = gen_n(rng, sum(counts))
-        op.update(counts=counts, n=n, container=rng.choice(["list", "ndarray", "ndarray"]),
-                  n_float=rng.random() < 0.1)
+        op.update(counts=counts, n=n, container=rng.choice(["list", "ndarray", "ndarray", "tuple", "series", "int32", "uint8", "uint64"]),
+                  n_float=rng.random() < 0.1, n_np=rng.random() < 0.1)
         if "rng_extreme_subset" in sw["faults"] and rng.random() < 0.5:
             op["extreme"] = rng.choice(["first", "last", "stride"])
     elif kind == "downsample":
         N = rng.choice([0, 1, 2, 3, 5, 8, 13, 20])
-        cont = rng.choice(["list", "ndarray", "series", "dataframe"])
+        cont = rng.choice(["list", "ndarray", "series", "dataframe", "tuple"])
         op.update(n_items=N, container=cont, items=gen_strings(rng, N))
         op["maxseqs"] = rng.choice([None, 0, 1, max(0, N - 1), N, N + 1, rng.randint(0, N + 1)])
         if cont == "dataframe":
-            op["index_kind"] = rng.choice(["default", "offset", "strings", "shuffled", "duplicates"])
+            op["index_kind"] = rng.choice(["default", "offset", "strings", "shuffled", "duplicates", "multi"])
         if cont == "series":
-            op["index_kind"] = rng.choice(["default", "offset", "duplicates"])
+            op["index_kind"] = rng.choice(["default", "offset", "duplicates", "strings"])
+        op["maxseqs_np"] = rng.random() < 0.1
         if "rng_extreme_subset" in sw["faults"] and cont in ("list", "ndarray") and rng.random() < 0.5:
             op["extreme"] = rng.choice(["first", "last", "stride"])
     elif kind == "powerlaw_sample":
@@ -124,7 +131,9 @@ def gen_op(rng, sw, last_sample):
             op["boundary"] = [[rng.random(), rng.choice([0, 1])] for _ in range(rng.randint(1, 3))]
     else:  # powerlaw_mle_alpha on the previous sample (or a generated one)
         op.update(method=rng.choice(["simple", "continuitycorrection", "exact"]),
-                  cmin_offset=rng.choice([0, 0, 0, 1, 2]),
+                  cmin_offset=rng.choice([0, 0, 0, 1, 2, -1]),
+                  c_container=rng.choice(["ndarray", "ndarray", "list", "int", "series"]),
+                  zeros=rng.random() < 0.2,
                   sample=dict(size=rng.choice([1, 5, 50, 400]), xmin=rng.choice([1, 2, 5]),
                               alpha=rng.choice([1.6, 2.0, 2.5, 3.5]), seed=rng.getrandbits(32)),
                   use_previous=rng.random() < 0.6)
@@ -316,6 +325,8 @@ def make_container(items, kind, index_kind="default"):
     n = len(items)
     if kind == "list":
         return list(items)
+    if kind == "tuple":
+        return tuple(items)
     if kind == "ndarray":
         return np.array(items, dtype=object if n == 0 else None)
     if index_kind == "offset":
@@ -324,6 +335,8 @@ def make_container(items, kind, index_kind="default"):
         idx = ["r%d" % i for i in range(n)]
     elif index_kind == "shuffled":
         idx = list(reversed(range(n)))
+    elif index_kind == "multi":
+        idx = pd.MultiIndex.from_tuples([("s%d" % (i % 2), i // 2) for i in range(n)]) if n else pd.MultiIndex.from_tuples([], names=[None, None])
     elif index_kind == "duplicates":  # two repertoires stacked without ignore_index
         idx = [i % max(1, (n + 1) // 2) for i in range(n)]
     else:
@@ -388,13 +401,25 @@ def execute(trace, ctx=None):
             counts = op["counts"]
             total = sum(counts)
             n = op["n"]
-            arg = np.array(counts) if op["container"] == "ndarray" else list(counts)
-            narg = float(n) if op.get("n_float") else n
+            cont = op["container"]
+            if cont == "ndarray":
+                arg = np.array(counts)
+            elif cont == "tuple":
+                arg = tuple(counts)
+            elif cont == "series":
+                arg = pd.Series(counts, index=["c%d" % (len(counts) - i) for i in range(len(counts))])
+            elif cont in ("int32", "uint8", "uint64") and max(counts + [0]) < 250:
+                arg = np.array(counts, dtype=cont)
+            else:
+                arg = list(counts)
+            narg = float(n) if op.get("n_float") else (np.int64(n) if op.get("n_np") else n)
             ctxm = ExtremeChoice(op["extreme"]) if op.get("extreme") else _Null()
             try:
                 with ctxm:
                     res = st.subsample(arg, narg)
-                out = ("value", [int(x) for x in res[0]], [int(x) for x in res[1]], str(np.asarray(res[0]).dtype.kind))
+                raw_i, raw_c = [float(x) for x in res[0]], [float(x) for x in res[1]]
+                integral = all(x == int(x) for x in raw_i + raw_c)
+                out = ("value", [int(x) for x in raw_i], [int(x) for x in raw_c], integral)
             except HarnessError:
                 raise
             except Exception as e:
@@ -425,8 +450,11 @@ def execute(trace, ctx=None):
                 idx, cnt = out[1], out[2]
                 if any(b <= a for a, b in zip(idx, idx[1:])):
                     violation = V("indices_not_sorted_unique", "subsample", step, "indices %r for counts=%r n=%d" % (idx, counts, n))
-                elif any(not (0 <= i < len(counts)) for i in idx) or out[3] not in "iu":
-                    violation = V("index_out_of_range", "subsample", step, "indices %r (dtype kind %s) for %d categories" % (idx, out[3], len(counts)))
+                elif not out[3]:
+                    # (integer VALUES are what the statement asks for; the dtype of the returned arrays is not part of it)
+                    violation = V("not_integer_valued", "subsample", step, "indices %r / counts %r are not whole numbers" % (raw_i, raw_c))
+                elif any(not (0 <= i < len(counts)) for i in idx):
+                    violation = V("index_out_of_range", "subsample", step, "indices %r for %d categories" % (idx, len(counts)))
                 elif len(idx) != len(cnt):
                     violation = V("shape", "subsample", step, "indices %r vs counts %r" % (idx, cnt))
                 elif any(c < 1 for c in cnt):
@@ -442,10 +470,11 @@ def execute(trace, ctx=None):
             m = op["maxseqs"]
             arg = make_container(items, op["container"], op.get("index_kind", "default"))
             ctxm = ExtremeChoice(op["extreme"]) if op.get("extreme") else _Null()
-            before = arg.copy() if op["container"] != "list" else list(arg)
+            before = arg.copy() if op["container"] not in ("list", "tuple") else list(arg)
+            marg = np.int64(m) if (op.get("maxseqs_np") and m is not None) else m
             try:
                 with ctxm:
-                    res = dist.downsample(arg, m)
+                    res = dist.downsample(arg, marg)
                 err = None
             except HarnessError:
                 raise
@@ -515,8 +544,9 @@ def execute(trace, ctx=None):
                         if extra:
                             violation = V("not_sub_multiset", "downsample", step,
                                           "downsample(%r, %d) -> %r : %r exceed their multiplicity in the input" % (items, m, got, dict(extra)))
-            # the input itself must be left alone (checked here because 'unchanged' is part of the statement)
-            if violation is None:
+            # "returns its input unchanged" is promised for len <= maxseqs / maxseqs None only: there the input must also BE
+            # unchanged.  Whether a larger input is left alone while it is sampled is C20's subject, not this property's.
+            if violation is None and (m is None or N <= m):
                 try:
                     untouched = before.equals(arg) if hasattr(before, "equals") else list(before) == list(arg)
                 except Exception:
@@ -571,14 +601,25 @@ def execute(trace, ctx=None):
                     c = np.asarray(st.powerlaw_sample(size=sp["size"], xmin=sp["xmin"], alpha=sp["alpha"]), dtype=float)
                 xmin = sp["xmin"]
             c = c[np.isfinite(c)]
-            cmin = xmin + op["cmin_offset"]
+            cmin = max(1, xmin + op["cmin_offset"])
+            if op.get("zeros"):
+                c = np.concatenate([np.zeros(3), c])  # unobserved clones in the count vector: below every cmin
             method = op["method"]
             kw = {}
             if op.get("bounds"):
                 kw["bounds"] = list(op["bounds"])
+            cc = op.get("c_container", "ndarray")
+            if cc == "list":
+                carg = [float(x) for x in c]
+            elif cc == "int" and c.size and float(c.max()) < 2 ** 62:
+                carg = c.astype(np.int64)
+            elif cc == "series":
+                carg = pd.Series(c, index=np.arange(len(c))[::-1])
+            else:
+                carg = c
             try:
                 with np.errstate(all="ignore"):
-                    res = float(st.powerlaw_mle_alpha(c, cmin=cmin, method=method, **kw))
+                    res = float(st.powerlaw_mle_alpha(carg, cmin=cmin, method=method, **kw))
                 err = None
             except HarnessError:
                 raise
@@ -589,8 +630,12 @@ def execute(trace, ctx=None):
             stats["mle_" + method] += 1
             if err:
                 log.append(["mle", "raise", err[:60]])
-                # 'exact' may legitimately report a failed fit; the closed forms never raise on numeric input
-                if method != "exact":
+                # 'exact' may legitimately report a failed fit (the library's own Exception("fitting failed")); anything else
+                # on a valid sample means no maximiser was returned.  The closed forms never raise on numeric input.
+                if method == "exact" and not err.startswith("Exception: fitting failed"):
+                    violation = V("exact_raised", "powerlaw_mle_alpha", step, "method=exact cmin=%r n=%d bounds=%r raised %s" % (
+                        cmin, len(sel), op.get("bounds"), err))
+                elif method != "exact":
                     violation = V("closed_form_raised", "powerlaw_mle_alpha", step, "method=%s cmin=%r n=%d raised %s" % (method, cmin, len(sel), err))
             else:
                 log.append(["mle", method, repr(res)])
